@@ -226,6 +226,21 @@ def run(prog, rep, tier, repo):
             _check_nonneg(prog, rep, f, path, key, name, m)
     rep.floor('non-negative', 13, 'pdf/pmf of the 13 laws')
 
+    # ------------------------------------------------------------------ D4' total: "returns 0 (rather than failing) outside the support"
+    # no evaluation point may make a density / mass function unable to return: the necessary conditions of normal return (own asserts and
+    # the preconditions of every callee on the way, e.g. a domain assert in ln_gamma) are refuted on exact witnesses over the argument
+    # and the parameters the constructor admits
+    from ..precond import check_returns
+    keys = []
+    for d in ALL:
+        for tr, ms in (('Continuous', ('pdf', 'ln_pdf')), ('Discrete', ('pmf', 'ln_pmf'))):
+            for m in ms:
+                k = '<%s as %s%s>::%s' % (DS + d, DS, tr, m)
+                if k in pdb.bodies:
+                    keys.append(k)
+    check_returns(prog, rep, 'total', keys, what='where the property requires a value (0 outside the support)')
+    rep.floor('total', 13, 'pdf/pmf of the 13 laws')
+
     # ------------------------------------------------------------------ D6 ln_pdf
     k = DS + 'Continuous::ln_pdf'
     f = prog.func(k)
